@@ -12,7 +12,7 @@ LEVEL = 'exploration'
 SHARDS = {'quick': 4, 'thorough': 16}
 RULE = ('Rule-based state machine over one instance of every real cassette type (in-memory, file-based over a '
         'scratch directory, S3 over the fake bucket with key prefixes "", "p", "p/q", "pq" sharing one bucket): '
-        'save(category, data, metadata) / fetch / fetch_metadata / fetch_unknown histories; data keys are '
+        '(plus one S3 cassette configured with an infrequent-access threshold and a size-based sampling calculator that always keeps): save(category, data, metadata) / fetch / fetch_metadata / fetch_unknown histories; data keys are '
         'recorder-shaped and hostile texts (quotes, backslashes, braces, separators, newlines, unicode, slashes), '
         'values and metadata from the faithful-domain generators (objects-without-aliasing and '
         'aliasing-without-list-state families, shared sub-objects across keys). Oracle: dict model id -> (keys, '
@@ -25,7 +25,11 @@ ASSUMPTIONS = ['values restricted to the faithful domain of jsonpickle 0.9.3 on 
                'S3: data key "_metadata" excluded by construction (known finding)']
 
 CATEGORIES = ['A', 'AB', 'A_B', 'A_', 'B', 'Cat']
-S3_PREFIXES = ('', 'p', 'p/q', 'pq')
+def _always(category, size, recording):
+    return 1.5
+
+
+S3_PREFIXES = ('', 'p', 'p/q', 'pq', ('ia', {'infrequent_access_kb_threshold': 0.0001, 'sampling_calculator': _always}))
 KEY_SAMPLES = ['input: a "q" args={"py/tuple": [1]}, kwargs=[]', 'k/\\{}', u'é \n\t', "it's", 'output: x #1.output',
                'output: x #1.result', '_metadata', '', ' ', 'a.b', u' ', '{"a": 1}', 'k,=:']
 key_texts = st.one_of(st.sampled_from(KEY_SAMPLES), V.texts, st.text(max_size=12)).filter(
@@ -92,6 +96,9 @@ class Interp(object):
             rec.set_data(k, data[k])
         rec.add_metadata(meta)
         cas.save_recording(rec)
+        # what was saved is what counts: the caller goes on using (and changing) its own objects afterwards
+        for n, v in enumerate(list(data.values()) + [meta] + list(meta.values())):
+            V.mutate_in_place(v, op.get('mutate_seed', 0) + n)
         self.nsaves += 1
         self.ctx.count('save:%s' % kind)
         self.ctx.count('save:family=%s' % op['family'])
@@ -179,7 +186,7 @@ def make_machine(ctx):
                 rec = data.draw(recordings)
                 self.step({'op': 'save', 'cas': data.draw(st.integers(0, NCAS - 1)),
                            'cat': data.draw(st.sampled_from(CATEGORIES)), 'family': rec[0], 'data': rec[1],
-                           'meta': rec[2]})
+                           'meta': rec[2], 'mutate_seed': data.draw(st.integers(0, 20))})
             elif kind == 'fetch':
                 self.step({'op': 'fetch', 'n': data.draw(st.integers(0, 50))})
             elif kind == 'unknown_fresh':
